@@ -10,5 +10,17 @@ case "$flavour" in
   plain)
     [ -f /verif/.build/mapctl/overlay.json ] || python3 /verif/engine/mapctl/gen.py /verif/.build/mapctl
     go build -overlay /verif/.build/mapctl/overlay.json -tags mapctl -o "$out" ./cmd/vcheck ;;
+  sched)
+    [ -f /verif/.build/mapctl/overlay.json ] || python3 /verif/engine/mapctl/gen.py /verif/.build/mapctl
+    (cd /verif/engine/instrument && go build -o /verif/.build/instrument .)
+    syncver=$(awk '$1=="golang.org/x/sync"{print $2}' /repo/go.mod)
+    eg=$(go env GOMODCACHE)/golang.org/x/sync@$syncver/errgroup
+    rm -rf /verif/.build/instr; mkdir -p /verif/.build/instr
+    pkgdirs=$(cd /repo && find . -name '*.go' -not -name '*_test.go' -not -path './cmd/*' -not -path './verifshim/*' -printf '%h\n' | sort -u | sed 's|^\.|/repo|')
+    /verif/.build/instrument -out /verif/.build/instr -overlay /verif/.build/instr/overlay.json \
+        -merge /verif/.build/mapctl/overlay.json \
+        -virtual /repo/verifshim/errgroup=$eg/errgroup.go,$eg/go120.go \
+        -globals "$(echo $pkgdirs | tr ' ' ',')" $pkgdirs
+    go build -race -overlay /verif/.build/instr/overlay.json -tags "mapctl sched" -o "$out" ./cmd/vcheck ;;
   *) echo "unknown flavour $flavour"; exit 2 ;;
 esac
